@@ -105,9 +105,9 @@ def cls_fixed_triggered_without_start(clause, lines):
     return True
 
 
+# F-C05a / F-C05b are repaired in /repo (eead572, 40d44b0): their classifiers are kept for the record but no longer
+# registered, so a recurrence is reported as a violation.
 CLASSIFIERS = {
-    "c05_start_timer_at_end_of_fixed": cls_start_timer_at_end_of_fixed,
-    "c05_flexible_on_never_checked": cls_flexible_on_never_checked,
     "c05_fixed_triggered_without_start": cls_fixed_triggered_without_start,
 }
 
@@ -137,7 +137,7 @@ class C05(Check):
                   "operation sequences and diffing every observation; the executable specification of the property is evaluated on the "
                   "implementation's own trace")
     level_note = ("Trusted: Lean kernel (+ propext, Classical.choice, Quot.sound), sampled correspondence of the hand-written model, harness/driver. "
-                  "Three clauses of the property are false of the unchanged code (known findings F-C05a/b/c) and carried as _partial/_counterexample theorems.")
+                  "One clause of the property (a DowntimeStart request for every downtime that took effect) is false of the code (known finding F-C05c) and carried as _partial/_counterexample; F-C05a/b are repaired (eead572, 40d44b0) and their theorems are full.")
     trusted_base = [
         "modelled, not verified: times are whole seconds, so the cleanup timer's 0.1 s delay is 'the first instant strictly after'; "
         "Downtime objects get authority (Resume) right after creation, as ApiListener::UpdateObjectAuthority does for HARunOnce objects; "
